@@ -28,7 +28,7 @@ Definition cmd_of_op (o : op) (p : string) : list string :=
   let q := quote p in
   match o with
   | OTest f => ["test"; f; q]
-  | OChecksum => ["test"; "-f"; q; "&&"; "sha1sum"; q; "|"; "awk"; "'{print $1}'"]
+  | OChecksum => ["test"; "-f"; q; "&&"; "sha1sum"; "<"; q; "|"; "awk"; "'{print $1}'"]
   | OResolve => ["test"; "-e"; q; "&&"; "readlink"; "-f"; q]
   | OChmod m follow => app ["chmod"] (app (if follow then [] else ["-h"]) [m; q])
   | OMkdir m pf => app ["mkdir"; "-m"; m] (app (if pf then ["-p"] else []) [q])
@@ -38,8 +38,8 @@ Definition cmd_of_op (o : op) (p : string) : list string :=
   | OSymlink t => ["ln"; "-snf"; quote t; q]
   | OHardlink t => ["ln"; "-nf"; quote t; q]
   | OSize => ["find -L " ++ q ++ " -type f -exec ls -ln {} \+ | awk 'BEGIN {sum=0} {sum+=$5} END {print sum}'; "]
-  | OGlob pat => ["set"; "--"; q ++ "/" ++ pat; ";"; "test"; "-e"; """$1"""; "&&"; "printf"; "'%s\n'"; """$@"""; ";"; ":"]
-  | OFind follow ty => app ["find"] (app (if follow then ["-L"] else []) [q; "-mindepth"; "1"; "-maxdepth"; "1"; "-type"; ty])
+  | OGlob pat => ["set"; "--"; q ++ "/" ++ pat; ";"; "test"; "-e"; """$1"""; "&&"; "printf"; "'%s\0'"; """$@"""; ";"; ":"]
+  | OFind follow ty => app ["find"] (app (if follow then ["-L"] else []) [q; "-mindepth"; "1"; "-maxdepth"; "1"; "-type"; ty; "-print0"])
   | OWrite => ["tee"; q; ">"; "/dev/null"]
   end.
 
